@@ -105,8 +105,9 @@ def prop(line, impl, model):
         sp = shape_problem(doc, p)
         if sp:
             return "shape: " + sp
-        if doc != py_armor(p):
-            return "armored output differs from the documented format (write sizes %s)" % (a[3] if op == "stream" else "-")
+        # (byte equality with the model's document is the correspondence, not the property: a
+        # format change that keeps the shape and carries the payload is reported as
+        # no-failing-input-found)
     elif op == "rt":
         if impl != "ok " + hx(expand(a[2])):
             return "round trip failed: decode(encode(p)) = %s (write sizes %s, source chunk %s, read buffer %s)" % (
@@ -287,9 +288,9 @@ def gen(ctx):
         n = rng.choice([0, 1, 24, 100, 700])
         p = expand(payload_spec(rng, n))
         doc = py_armor(p)
-        for _ in range(rng.choice([1, 1, 2, 4])):
-            pts = insertion_points(doc)
-            at = rng.choice(pts)
+        # all insertion points are taken on the original document (never inside inserted markup)
+        pts = insertion_points(doc)
+        for at in sorted((rng.choice(pts) for _ in range(rng.choice([1, 1, 2, 4]))), reverse=True):
             doc = doc[:at] + rng.choice(MARKUP) + doc[at:]
         sc, rb = rs(rng)
         add("dec %d %d %s" % (sc, rb, doc_tokens(doc)), "outside-markup", ("same", p))
@@ -298,7 +299,8 @@ def gen(ctx):
     add("dec 0 4096 %s" % doc_tokens(doc), "outside-markup-big", ("same", p))
     # markup inside a pre element (not required to be harmless; model and implementation must agree)
     for i in range(60 * mult):
-        p = expand(payload_spec(rng, rng.choice([1, 24, 100])))
+        # payloads of 3k bytes: no padding, so inserted base64 text never follows a padded quantum
+        p = expand(payload_spec(rng, rng.choice([3, 24, 99])))
         doc = py_armor(p)
         a0 = doc.index(b"<pre>") + 5
         a1 = doc.index(b"</pre>")
